@@ -133,6 +133,10 @@ COMPLEMENT = {"None": "Some", "Err": "Ok", "Break": "Continue"}
 SIBLINGS = {"Some": ("Option", "None"), "None": ("Option", "Some"), "Ok": ("Result", "Err"), "Err": ("Result", "Ok")}
 
 
+# a sink parameter: `&mut W` (generic) or `&mut dyn io::Write`
+SINK_TY = r"^&mut ([A-Z]\w*|dyn std::io::Write( \+ '\w+)?)$"
+
+
 def short_adt(path):
     return path.split("::")[-1]
 
@@ -1361,7 +1365,7 @@ class Sym:
         if tgt and tgt in self.fx.bodies:
             b = self.fx.bodies[tgt]
             mut_ok = not mut_idx or (self.inline_mut and not b.get("impl_trait") and all(vals[i][0] in ("place", "pl") for i in mut_idx)
-                                     and not (any(re.match(r"^&mut [A-Z]\w*$", (p_.get("ty") or "")) for p_ in b["params"]) and self.sink_leaf(b)))
+                                     and not (any(re.match(SINK_TY, (p_.get("ty") or "")) for p_ in b["params"]) and self.sink_leaf(b)))
             if b["krate"] in self.krates and not self.opaque(tgt) and tgt not in self.stack \
                     and len(self.stack) <= self.inline_depth and mut_ok and (not has_loop(b) or self.inline_mut):
                 # generic helper: remember what its type parameters stand for at this call site (type-qualified callee names
@@ -1465,7 +1469,7 @@ class Sym:
                 if x.get("k") == "Call" and "fn" in x:
                     tgt = self.fx.by_dp.get(x["fn"].get("dp"))
                     if tgt in self.fx.bodies and self.fx.bodies[tgt]["krate"] in self.krates and tgt != b["path"] \
-                            and any(re.match(r"^&mut [A-Z]\w*$", (p_.get("ty") or "")) for p_ in self.fx.bodies[tgt]["params"]):
+                            and any(re.match(SINK_TY, (p_.get("ty") or "")) for p_ in self.fx.bodies[tgt]["params"]):
                         c = False
                         break
             b["_sink_leaf"] = c
